@@ -345,6 +345,28 @@ PROPS['C09'] = dict(
 )
 
 
+def upd_streams(tier):
+    n = {'quick': 16000, 'extended': 100000, 'thorough': 600000}[tier]
+    return [dict(name='update-twice', harness=['upd', str(n), '{seed}', '{shard}', '{nshards}'], driver='upd')]
+
+
+PROPS['C10'] = dict(
+    family='line', tags={'U': 'upd'},
+    theorems=['C10_outside_preserved', 'C10_tokens_well_shaped', 'C10_nothing_truncated', 'C10_fence_safe'],
+    streams=upd_streams,
+    spec_kinds=['SPEC:C10'], corr_kinds=['DIFF:update'],
+    case_format='U <hex original document>|<outcome per test: ok/output/code>|<hex document after update | err | panic>|<hex document after a second update with the same outputs>|<hex commands of the original>|<hex commands parsed from the updated document>',
+    rule='documents rendered from random ASTs of the Markdown grammar (see C06; 1 in 6 cut short so that the last construct is unterminated), every test given one of: its own expectation lines as output (passes when they are plain), a changed output drawn from the collision shapes of C09, a changed exit code; '
+         'the real MarkdownUpdateGenerator is applied, the result parsed by the real parser, re-validated against the same outputs and updated again. Non-trivial: at least one test; distinct by document',
+    manifest=dict(text='Machine-checked theorems (Coq): for every token that is not a scrut block update writes back exactly the token lines (the only addition: the missing closing --- of an open front-matter), for all documents since the tokenizer is lossless and all its tokens are well shaped; the regenerated fence has >= 3 backticks and is closed by no line of the new body. Block-level claims (number/order/config/comments of blocks kept, lines of passing tests kept, same commands, idempotence) are evaluated on the implementation for every generated document x outcome vector with the token model as the measuring instrument, and the structural part of generate_update is compared with the model.',
+                  technique='Coq proof over the token automaton (losslessness, shape invariant, fence lemma) + differential runs of the real update generator applied twice',
+                  note='Partial: idempotence and same-commands are checked on the implementation (oracle), not proved -- they need the parse(render) theorem of C06.'),
+    exhaustive={'quick': False, 'thorough': False},
+    assumptions=['the bodies of regenerated tests are C09\'s concern; here they are an input of the model',
+                 'lines are compared by content (CRLF is read as LF and LF is written)'],
+)
+
+
 def run_one(prop, inp, ctx):
     """re-run one case through the implementation and the model; returns CASE lines"""
     cfg = PROPS[prop]
